@@ -329,6 +329,7 @@ type c14World struct {
 	kidSeq int
 	sinceClean int
 	idp2   *vfIdP // extra JWT issuer (instance "extra")
+	coldKeys []jose.JSONWebKey
 }
 
 type c14Stale struct {
@@ -338,6 +339,7 @@ type c14Stale struct {
 	idToken   string
 	at        string
 	expiresAt time.Time // of the ID token (short-lived ones for the re-validation flow)
+	kid       string
 }
 
 var c14Seq int64
@@ -1329,6 +1331,300 @@ func c14ObserveBrowser(w *vfWorld, p *vfProxy, b *vfBrowser) c14Obs {
 	return cw.observe(func(q *vfReq) *vfResp { return b.Send(p, q) })
 }
 
+// ---- validation endpoint status sweep (legacy providers) -----------------------------------------------------------
+// A provider without refresh support validates at its validation URL — at the login callback and whenever a session
+// is due for re-validation. The endpoint only has a status, and ONLY a final 200 means "validated". The validation URL is
+// served by a server of the check so that every status class, redirects with and without Location, and informational
+// responses before the final one can be scripted.
+
+type c14ValMode struct {
+	Name       string
+	Status     int    // final status; 0 = healthy (200)
+	Location   string // path on the same server
+	Info       int    // informational status sent before the final one
+	RetryAfter bool
+	Recorded   bool // outcome recorded, not judged (a redirect that the HTTP client follows to a page answering 200)
+}
+
+func (m c14ValMode) validated() bool { return m.Status == 0 || m.Status == 200 }
+
+type c14ValServer struct {
+	srv  *httptest.Server
+	mu   sync.Mutex
+	mode c14ValMode
+	hits int
+}
+
+func (v *c14ValServer) set(m c14ValMode) { v.mu.Lock(); v.mode, v.hits = m, 0; v.mu.Unlock() }
+func (v *c14ValServer) hitCount() int     { v.mu.Lock(); defer v.mu.Unlock(); return v.hits }
+
+func c14NewValServer() *c14ValServer {
+	v := &c14ValServer{}
+	mux := http.NewServeMux()
+	mux.HandleFunc("/target-200", func(w http.ResponseWriter, _ *http.Request) {
+		w.Header().Set("Content-Type", "text/html")
+		_, _ = w.Write([]byte("<html><body>Please sign in</body></html>"))
+	})
+	mux.HandleFunc("/target-401", func(w http.ResponseWriter, _ *http.Request) { http.Error(w, `{"error":"invalid_token"}`, 401) })
+	mux.HandleFunc("/validate", func(w http.ResponseWriter, _ *http.Request) {
+		v.mu.Lock()
+		m := v.mode
+		v.hits++
+		v.mu.Unlock()
+		if m.Info != 0 {
+			w.Header().Set("Link", "</style.css>; rel=preload")
+			w.WriteHeader(m.Info)
+		}
+		st := m.Status
+		if st == 0 {
+			st = 200
+		}
+		if m.Location != "" {
+			w.Header().Set("Location", m.Location)
+		}
+		if m.RetryAfter {
+			w.Header().Set("Retry-After", "30")
+		}
+		w.Header().Set("Content-Type", "application/json")
+		w.WriteHeader(st)
+		if st >= 200 && st != 204 && st != 205 && st != 304 {
+			_, _ = w.Write([]byte(`{"active":true,"sub":"someone","email":"someone@val.test"}`))
+		}
+	})
+	v.srv = httptest.NewServer(mux)
+	return v
+}
+
+func c14ValModes() []c14ValMode {
+	var out []c14ValMode
+	out = append(out, c14ValMode{Name: "200-control", Status: 200}, c14ValMode{Name: "103-then-200-control", Status: 200, Info: 103})
+	for _, st := range []int{201, 202, 203, 204, 205, 206, 207, 226, 300, 301, 302, 303, 304, 305, 307, 308, 400, 401, 402, 403, 404, 405, 406, 407, 408, 409, 410, 412, 415, 418, 421, 422, 423, 425, 426, 428, 429, 431, 451, 499, 500, 501, 502, 503, 504, 505, 507, 508, 511, 520, 599} {
+		out = append(out, c14ValMode{Name: fmt.Sprintf("status-%d", st), Status: st})
+	}
+	out = append(out,
+		c14ValMode{Name: "429-with-retry-after", Status: 429, RetryAfter: true},
+		c14ValMode{Name: "503-with-retry-after", Status: 503, RetryAfter: true},
+		c14ValMode{Name: "302-location-to-401", Status: 302, Location: "/target-401"},
+		c14ValMode{Name: "307-location-to-404", Status: 307, Location: "/no-such-page"},
+		c14ValMode{Name: "301-location-to-401", Status: 301, Location: "/target-401"},
+		c14ValMode{Name: "103-then-401", Status: 401, Info: 103},
+		c14ValMode{Name: "103-then-429", Status: 429, Info: 103},
+		c14ValMode{Name: "103-then-204", Status: 204, Info: 103},
+		c14ValMode{Name: "302-location-to-a-200-page", Status: 302, Location: "/target-200", Recorded: true},
+	)
+	return out
+}
+
+type c14StatusCase struct {
+	Flow  string // legacy-login-status | legacy-revalidate-status
+	Mode  c14ValMode
+	Store string
+}
+
+func (r *c14Runner) statusCase(cw *c14World, vs *c14ValServer, sc c14StatusCase) {
+	run := r.run
+	p := cw.px[sc.Store]
+	c := c14Case{Flow: sc.Flow, Pos: "validate", Kind: sc.Mode.Name, Store: sc.Store}
+	healthy := c14ValMode{Name: "healthy"}
+	revoked := c14ValMode{Name: "revoked", Status: 401}
+	var steps []string
+	defer vs.set(healthy)
+	switch sc.Flow {
+	case "legacy-login-status":
+		cw.seq++
+		sub := fmt.Sprintf("ls-w%d-%d", cw.idx, cw.seq)
+		id := vfIdentity{Sub: sub, Email: sub + "@legacy.test", Profile: map[string]interface{}{"sub": sub, "email": sub + "@legacy.test"}}
+		b := vfNewBrowser("")
+		l, err := b.StartLogin(p, id, "/")
+		if err != nil {
+			run.Eval("")
+			run.Inconclusive("rig: login could not be started")
+			return
+		}
+		vs.set(sc.Mode)
+		cb := b.Get(p, l.CallbackTarget(p))
+		hits := vs.hitCount()
+		obs := cw.observe(func(q *vfReq) *vfResp { return b.Send(p, q) })
+		obs.Cookies = append(c14SessionCookies(cb.SetCookies()), obs.Cookies...)
+		steps = []string{"legacy provider (keycloak), validate-url served by the check", fmt.Sprintf("login; the validation call of the callback is answered %q -> callback status %d", sc.Mode.Name, cb.Code)}
+		cell := ""
+		if hits > 0 {
+			cell = fmt.Sprintf("%s|validate|%s|%s", sc.Flow, sc.Mode.Name, sc.Store)
+		} else {
+			run.Count("fault_position_not_reached", 1)
+		}
+		run.Eval(cell)
+		run.Count("cases_"+sc.Flow, 1)
+		session := obs.session() || len(obs.Cookies) > 0
+		switch {
+		case cb.Panic != "" || obs.Panic != "":
+			r.violation("c14:panic", "panic: "+vfTrunc(cb.Panic+obs.Panic, 300), cw, p, c, hits, steps, obs, nil)
+		case sc.Mode.Recorded:
+			run.Count(fmt.Sprintf("recorded_%s_%s_session=%v", sc.Flow, sc.Mode.Name, session), 1)
+		case hits > 0 && !sc.Mode.validated() && session:
+			r.violation("c14:session-after-faulted-conversation:legacy-login-status", fmt.Sprintf("the validation URL answered %q (only a final 200 is a validation) and a session exists (callback status %d, session cookies %v, userinfo %d)", sc.Mode.Name, cb.Code, obs.Cookies, obs.UserinfoCode), cw, p, c, hits, steps, obs, nil)
+		case sc.Mode.validated() && !session:
+			run.Inconclusive("rig: healthy validation control did not produce a session")
+		case sc.Mode.validated():
+			run.Count("status_controls_served", 1)
+		default:
+			run.Count("status_not_validated_no_session", 1)
+		}
+	case "legacy-revalidate-status":
+		key := sc.Store
+		if len(cw.stale[key]) == 0 || cw.stale[key][0] == nil {
+			if len(cw.stale[key]) > 0 {
+				cw.stale[key] = cw.stale[key][1:]
+			}
+			run.Eval("")
+			run.Inconclusive("rig: no stale legacy session for the status sweep")
+			return
+		}
+		st := cw.stale[key][0]
+		cw.stale[key] = cw.stale[key][1:]
+		vs.set(sc.Mode)
+		obs := cw.observe(func(q *vfReq) *vfResp { return st.b.Send(p, q) })
+		hits := vs.hitCount()
+		vs.set(revoked)
+		o2 := cw.observe(func(q *vfReq) *vfResp { return st.b.Send(p, q) })
+		steps = []string{"legacy provider (keycloak), validate-url served by the check; session of " + st.sub + " issued ten minutes ago (cookie-refresh 1m)",
+			fmt.Sprintf("GET /oauth2/userinfo, GET /app/x while the validation URL answers %q", sc.Mode.Name), "then the validation URL answers 401 (revoked); same two requests by the same browser"}
+		cell := ""
+		if hits > 0 {
+			cell = fmt.Sprintf("%s|validate|%s|%s", sc.Flow, sc.Mode.Name, sc.Store)
+		} else {
+			run.Count("fault_position_not_reached", 1)
+		}
+		run.Eval(cell)
+		run.Count("cases_"+sc.Flow, 1)
+		rep := map[string]interface{}{"with_scripted_status": obs, "after_endpoint_says_revoked": o2}
+		switch {
+		case obs.Panic != "" || o2.Panic != "":
+			r.violation("c14:panic", "panic: "+vfTrunc(obs.Panic+o2.Panic, 300), cw, p, c, hits, steps, rep, nil)
+		case sc.Mode.Recorded:
+			run.Count(fmt.Sprintf("recorded_%s_%s_served=%v", sc.Flow, sc.Mode.Name, obs.session()), 1)
+		case hits > 0 && !sc.Mode.validated() && obs.session():
+			r.violation("c14:served-after-faulted-validation", fmt.Sprintf("the stale session was served (userinfo %d, upstream reached %v) although its re-validation was answered %q (only a final 200 is a validation)", obs.UserinfoCode, obs.UpHit, sc.Mode.Name), cw, p, c, hits, steps, rep, nil)
+		case hits > 0 && !sc.Mode.validated() && o2.session():
+			r.violation("c14:session-extended-by-faulted-validation", fmt.Sprintf("the re-validation was answered %q, yet the same browser's next request is served while the endpoint says the token is revoked: the session's refresh timer was reset by a validation that did not succeed", sc.Mode.Name), cw, p, c, hits, steps, rep, nil)
+		case sc.Mode.validated() && !obs.session():
+			run.Inconclusive("rig: healthy re-validation control was not served")
+		case sc.Mode.validated():
+			run.Count("status_controls_served", 1)
+		default:
+			run.Count("status_not_validated_not_served", 1)
+		}
+	}
+}
+
+// ---- OIDC re-validation with a key set that has to be fetched ------------------------------------------------------
+// A session that cannot be refreshed (no refresh token) is re-validated by verifying its own ID token. On an instance
+// that has not got the signing key in its cache (a restarted / second replica sharing cookie secret and store: here
+// instance B, while the login happened on instance A; the ID token is signed under a key id of its own) that needs a
+// key-set retrieval. While that retrieval is answered with a fault the ID token is NOT verified: the request must not
+// be served.
+
+type c14ColdKind struct {
+	Name string
+	kind *c14Kind // scripted reply at the jwks position; nil for the two key-set manipulations
+}
+
+func (cw *c14World) makeColdStale(store string) *c14Stale {
+	p := cw.px[store]
+	cw.seq++
+	cw.kidSeq++
+	sub := fmt.Sprintf("ck-w%d-%d", cw.idx, cw.seq)
+	kid := fmt.Sprintf("c14-cold-%d", cw.kidSeq)
+	// the key set publishes only the key of the login at hand: an instance that fetched the key set for another session
+	// still has to fetch it again for this one
+	keys := []jose.JSONWebKey{{Key: &vfKeyB.PublicKey, KeyID: kid, Algorithm: "RS256", Use: "sig"}}
+	cw.w.IdP.Set(func(c *vfIdPCfg) {
+		c.ExtraJWKS = keys
+		c.MintOverride = func(grant string, claims map[string]interface{}) (string, bool) {
+			return vfMint(claims, vfMintOpts{Key: vfKeyB, Kid: kid}), true
+		}
+	})
+	defer cw.setMint(nil)
+	st := &c14Stale{b: vfNewBrowser(""), sub: sub, email: sub + "@tok.test", kid: kid}
+	id := vfIdentity{Sub: sub, Email: st.email, PreferredUsername: "pu-" + sub, Groups: []string{"g1"}, NoRefreshToken: true}
+	if _, _, err := st.b.Login(p, id, "/"); err != nil {
+		return nil
+	}
+	st.idToken, st.at = cw.lastTokens()
+	return st
+}
+
+func (r *c14Runner) coldCase(cw *c14World, ck c14ColdKind, store string) {
+	run := r.run
+	pB := cw.px[store+"B"]
+	c := c14Case{Flow: "oidc-revalidate-key-fetch", Pos: "jwks", Kind: ck.Name, Store: store, kind: ck.kind}
+	if len(cw.stale[store]) == 0 || cw.stale[store][0] == nil {
+		if len(cw.stale[store]) > 0 {
+			cw.stale[store] = cw.stale[store][1:]
+		}
+		run.Eval("")
+		run.Inconclusive("rig: no stale session for the key-fetch re-validation flow")
+		return
+	}
+	st := cw.stale[store][0]
+	cw.stale[store] = cw.stale[store][1:]
+	all := []jose.JSONWebKey{{Key: &vfKeyB.PublicKey, KeyID: st.kid, Algorithm: "RS256", Use: "sig"}}
+	cw.w.IdP.Set(func(cf *vfIdPCfg) { cf.ExtraJWKS = all })
+	cx := &c14Ctx{Sub: st.sub, Issuer: cw.w.IdP.Issuer, JWKS: append([]jose.JSONWebKey{{Key: &vfKeyA.PublicKey, KeyID: "k1", Algorithm: "RS256", Use: "sig"}}, all...)}
+	must := true
+	j0 := cw.w.IdP.EventCount("jwks")
+	disarm := func() int { return cw.w.IdP.EventCount("jwks") - j0 }
+	switch {
+	case ck.kind != nil:
+		must = ck.kind.Must
+		disarm = cw.arm(c, cx)
+	case ck.Name == "key-removed-from-key-set":
+		var rest []jose.JSONWebKey
+		for _, k := range all {
+			if k.KeyID != st.kid {
+				rest = append(rest, k)
+			}
+		}
+		cw.w.IdP.Set(func(cf *vfIdPCfg) { cf.ExtraJWKS = rest })
+	case ck.Name == "different-key-under-the-same-kid":
+		var swapped []jose.JSONWebKey
+		for _, k := range all {
+			if k.KeyID == st.kid {
+				k = jose.JSONWebKey{Key: &vfKeyA.PublicKey, KeyID: st.kid, Algorithm: "RS256", Use: "sig"}
+			}
+			swapped = append(swapped, k)
+		}
+		cw.w.IdP.Set(func(cf *vfIdPCfg) { cf.ExtraJWKS = swapped })
+	}
+	obs := cw.observe(func(q *vfReq) *vfResp { return st.b.Send(pB, q) })
+	fired := disarm()
+	cw.w.IdP.Set(func(cf *vfIdPCfg) { cf.ExtraJWKS = all })
+	steps := []string{"login on instance A as " + st.sub + " (no refresh token; ID token signed under key id " + st.kid + "), session issued ten minutes ago (cookie-refresh 1m)",
+		"GET /oauth2/userinfo, GET /app/x sent to instance B (same flags, cookie secret and store; never saw that key id) while the key-set endpoint answers with the fault"}
+	cell := ""
+	if fired > 0 {
+		cell = fmt.Sprintf("%s|jwks|%s|%s", c.Flow, ck.Name, store)
+	} else {
+		run.Count("fault_position_not_reached", 1)
+	}
+	run.Eval(cell)
+	run.Count("cases_"+c.Flow, 1)
+	switch {
+	case obs.Panic != "":
+		r.violation("c14:panic", "panic: "+vfTrunc(obs.Panic, 300), cw, pB, c, fired, steps, obs, nil)
+	case fired > 0 && must && obs.session():
+		r.violation("c14:served-without-verified-id-token", fmt.Sprintf("the session could not be refreshed and its ID token could not be verified (key-set retrieval: %s), yet the request was served (userinfo %d as %q, upstream reached %v)", ck.Name, obs.UserinfoCode, obs.Email, obs.UpHit), cw, pB, c, fired, steps, obs, nil)
+	case obs.session():
+		run.Count("key_fetch_tolerated_served", 1)
+		if (obs.UserinfoCode == 200 && (obs.Email != st.email || obs.User != st.sub)) || (obs.UpHit && obs.UpEmail != st.email) {
+			r.violation("c14:wrong-identity-after-odd-response", fmt.Sprintf("after an odd key-set answer the session names user %q e-mail %q / %q", obs.User, obs.Email, obs.UpEmail), cw, pB, c, fired, steps, obs, nil)
+		}
+	default:
+		run.Count("key_fetch_not_served", 1)
+	}
+	r.maybeClean(cw, pB, c, steps)
+}
+
 // ---- start-up discovery ------------------------------------------------------------------------------------------
 
 func (r *c14Runner) startupCase(cw *c14World, c c14Case) {
@@ -1374,7 +1670,7 @@ func (r *c14Runner) startupCase(cw *c14World, c c14Case) {
 func TestVerif_C14(t *testing.T) {
 	run := vfNewRun(t, "C14", "fault_enumeration")
 	run.SetRule("flows {login (all claims in the token; key-set fetch forced by a new key id), login with profile lookup (e-mail only at the profile endpoint), login with a thin ID token (optional claims only at the profile endpoint), bearer token under a new key id, refresh (token / key-set / profile position), refresh with a thin ID token, wrongly typed claims also in bearer tokens of an extra JWT issuer, " +
-		"refresh with an expired old ID token (re-validation), re-validation of a stale session at the validation URL of a provider without refresh support, start-up discovery} x every identity-provider call position x response kind (structural faults, tolerated oddities, wrongly typed claims); " +
+		"refresh with an expired old ID token (re-validation), re-validation of a stale session at the validation URL of a provider without refresh support (all reply kinds + a sweep of ~65 status / redirect / informational answers, also at the login callback: only a final 200 validates), re-validation of an unrefreshable OIDC session on an instance that has to fetch the key set first, start-up discovery} x every identity-provider call position x response kind (structural faults, tolerated oddities, wrongly typed claims); " +
 		"each case is followed by a clean login on the same instance. cell = (flow, position, kind, instance); non-trivial = the proxy actually made the call that was faulted")
 	run.Assume("the proxy's HTTP client has no timeout of its own (verified: stalls end when the provider answers or resets); stalls are therefore followed by a reset / a 500",
 		"profile endpoint values differ from token values", "the global pkg/clock mock is set only while the stale sessions are created (no other activity)")
@@ -1488,6 +1784,46 @@ func TestVerif_C14(t *testing.T) {
 			legacyCases = append(legacyCases, c14Case{Flow: "legacy-revalidate", Pos: "userinfo", Kind: k.Name, Store: st, kind: k})
 		}
 	}
+	// validation status sweep (legacy providers; login and re-validation) and key-fetch re-validation (OIDC): own worlds
+	var statusCases []c14StatusCase
+	for mi, m := range c14ValModes() {
+		for fi, flow := range []string{"legacy-login-status", "legacy-revalidate-status"} {
+			stores := []string{"cookie", "redis"}
+			if !thorough {
+				stores = []string{stores[(mi+fi+int(run.Env.Seed))%2]}
+			}
+			for _, st := range stores {
+				statusCases = append(statusCases, c14StatusCase{Flow: flow, Mode: m, Store: st})
+			}
+		}
+	}
+	type coldJob struct {
+		ck    c14ColdKind
+		store string
+	}
+	var coldJobs []coldJob
+	{
+		cks := []c14ColdKind{{Name: "key-removed-from-key-set"}, {Name: "different-key-under-the-same-kid"}}
+		for ki := range kinds {
+			k := &kinds[ki]
+			if k.Reply == nil || k.GiveUp || !applies(k, "jwks") {
+				continue
+			}
+			if k.Heavy && !thorough && k.Name != "stall-then-reset" {
+				continue
+			}
+			cks = append(cks, c14ColdKind{Name: k.Name, kind: k})
+		}
+		for ci, ck := range cks {
+			stores := []string{"cookie", "redis"}
+			if !thorough {
+				stores = []string{stores[(ci+int(run.Env.Seed))%2]}
+			}
+			for _, st := range stores {
+				coldJobs = append(coldJobs, coldJob{ck, st})
+			}
+		}
+	}
 	rng.Shuffle(len(cases), func(a, b int) { cases[a], cases[b] = cases[b], cases[a] })
 	// the short-lived-token flow waits for expiry: run those last in each world
 	sort.SliceStable(cases, func(a, b int) bool {
@@ -1544,8 +1880,41 @@ func TestVerif_C14(t *testing.T) {
 		lw.px["cookie"] = lwWorld.MustProxy(legacy...)
 		lw.px["redis"] = lwWorld.MustProxy(append([]string{"--session-store-type=redis", "--redis-connection-url=" + lwWorld.RedisURL()}, legacy...)...)
 	}
+	// status-sweep world: legacy provider whose validation URL is a server of the check
+	vs := c14NewValServer()
+	defer func() { vs.srv.CloseClientConnections(); vs.srv.Close() }()
+	swWorld := vfNewWorld(t)
+	defer swWorld.Close()
+	sw := &c14World{idx: 98, w: swWorld, px: map[string]*vfProxy{}, stale: map[string][]*c14Stale{}}
+	swWorld.IdP.Set(func(c *vfIdPCfg) { c.TokenResponseMutate = sw.recordLast })
+	{
+		iss := swWorld.IdP.Issuer
+		legacy := []string{"--provider=keycloak", "--login-url=" + iss + "/authorize", "--redeem-url=" + iss + "/token", "--profile-url=" + iss + "/userinfo", "--validate-url=" + vs.srv.URL + "/validate",
+			"--scope=openid", "--cookie-refresh=1m", "--pass-access-token=true"}
+		sw.px["cookie"] = swWorld.MustProxy(legacy...)
+		sw.px["redis"] = swWorld.MustProxy(append([]string{"--session-store-type=redis", "--redis-connection-url=" + swWorld.RedisURL()}, legacy...)...)
+	}
+	// key-fetch world: instances A (login) and B (re-validation) per store, same flags
+	kwWorld := vfNewWorld(t)
+	defer kwWorld.Close()
+	kw := &c14World{idx: 97, w: kwWorld, px: map[string]*vfProxy{}, stale: map[string][]*c14Stale{}}
+	kwWorld.IdP.Set(func(c *vfIdPCfg) { c.TokenResponseMutate = kw.recordLast })
+	for _, inst := range []string{"cookie", "cookieB"} {
+		kw.px[inst] = kwWorld.MustProxy(common...)
+	}
+	for _, inst := range []string{"redis", "redisB"} {
+		kw.px[inst] = kwWorld.MustProxy(append([]string{"--session-store-type=redis", "--redis-connection-url=" + kwWorld.RedisURL()}, common...)...)
+	}
 	// phase 1: stale sessions (global clock mock; nothing else runs)
 	clock.Set(time.Now().Add(-10 * time.Minute))
+	for _, sc := range statusCases {
+		if sc.Flow == "legacy-revalidate-status" {
+			sw.stale[sc.Store] = append(sw.stale[sc.Store], sw.makeLegacyStale(sc.Store))
+		}
+	}
+	for _, j := range coldJobs {
+		kw.stale[j.store] = append(kw.stale[j.store], kw.makeColdStale(j.store))
+	}
 	for _, c := range legacyCases {
 		lw.stale[c.Store] = append(lw.stale[c.Store], lw.makeLegacyStale(c.Store))
 	}
@@ -1583,7 +1952,7 @@ func TestVerif_C14(t *testing.T) {
 
 	// phase 2 (the legacy world runs next to the others)
 	var lwg sync.WaitGroup
-	lwg.Add(2)
+	lwg.Add(4)
 	phase := map[string]float64{}
 	var phaseMu sync.Mutex
 	took := func(name string, t0 time.Time) {
@@ -1598,6 +1967,22 @@ func TestVerif_C14(t *testing.T) {
 		defer lwg.Done()
 		defer took("leak_monitor", time.Now())
 		leakRun()
+	}()
+	go func() {
+		defer lwg.Done()
+		defer took("status_sweep_world", time.Now())
+		for _, sc := range statusCases {
+			r.statusCase(sw, vs, sc)
+			sw.w.Up.Reset()
+		}
+	}()
+	go func() {
+		defer lwg.Done()
+		defer took("key_fetch_world", time.Now())
+		for _, j := range coldJobs {
+			r.coldCase(kw, j.ck, j.store)
+			kw.w.Up.Reset()
+		}
 	}()
 	go func() {
 		defer lwg.Done()
@@ -1646,7 +2031,7 @@ func TestVerif_C14(t *testing.T) {
 	if run.Counter("clean_logins") < 50 {
 		run.Inconclusive("too few clean logins")
 	}
-	run.Extra("cases", len(cases)+len(legacyCases))
+	run.Extra("cases", len(cases)+len(legacyCases)+len(statusCases)+len(coldJobs))
 	run.RaceCheck("")
 	run.Finish(int64(len(cases))/2, run.Env.Pick(120, 300))
 }
